@@ -1,0 +1,10 @@
+//go:build verif
+
+package marbl
+
+// Contracts for govc (contract-based deductive verification, see /verif/DESIGN.md).
+// This file contains comments only and is compiled only with the build tag `verif`.
+
+//@ func (*Reader).ReadFrame
+//@   serves C19
+//@   safe index slice make div assert
